@@ -261,7 +261,7 @@ pub fn run_incarnation(ctx: &Ctx, disk: &Disk, inc: &Incarnation, seq: usize) ->
     let stdout = std::fs::File::create(&out_path).expect("stdout file");
     let stderr = std::fs::File::create(&err_path).expect("stderr file");
     let mut cmd = std::process::Command::new(bin);
-    cmd.args(&inc.argv)
+    cmd.args(inc.argv.iter().map(|a| os_arg(a)))
         .current_dir(&disk.root)
         .env_clear()
         .env("LD_PRELOAD", shim)
@@ -319,6 +319,22 @@ pub fn run_incarnation(ctx: &Ctx, disk: &Disk, inc: &Incarnation, seq: usize) ->
         None => (None, None),
     };
     Outcome { exit, signal, timed_out, panicked, panic_site, stdout, stderr, trace }
+}
+
+/// Marker of an argument given as raw bytes (arguments are byte strings on Unix; replay files are JSON):
+/// `RAW_ARG` followed by hex digits.
+pub const RAW_ARG: &str = "\u{e000}hex:";
+
+pub fn raw_arg(bytes: &[u8]) -> String {
+    format!("{}{}", RAW_ARG, bytes.iter().map(|b| format!("{:02x}", b)).collect::<String>())
+}
+
+fn os_arg(a: &str) -> std::ffi::OsString {
+    use std::os::unix::ffi::OsStringExt;
+    match a.strip_prefix(RAW_ARG) {
+        Some(h) => std::ffi::OsString::from_vec((0..h.len() / 2).filter_map(|i| u8::from_str_radix(&h[2 * i..2 * i + 2], 16).ok()).collect()),
+        None => std::ffi::OsString::from(a),
+    }
 }
 
 pub fn find_sub(hay: &[u8], needle: &[u8]) -> Option<usize> {
